@@ -167,6 +167,12 @@ func ApplyMetricsQuery(mQuery *structs.MetricsQuery, timeRange *dtu.MetricsTimeR
 		return mRes
 	}
 
+	// every data point is put into the bucket of its downsample interval
+	if !mQuery.ExitAfterTagsSearch && mQuery.Downsampler.GetIntervalTimeInSeconds() == 0 {
+		mRes.AddError(fmt.Errorf("invalid downsampler interval: %v%v", mQuery.Downsampler.Interval, mQuery.Downsampler.Unit))
+		return mRes
+	}
+
 	// iterate through all metrics segments, applying search as needed
 	// use finalTimeRange to get the series and data points including the lookback time
 	applyMetricsOperatorOnSegments(mQuery, mSegments, mRes, finalTimeRange, qid, querySummary)
